@@ -9,14 +9,14 @@ namespace Theo
 /-- At every point of every history the data memory consists of exactly the frames of
     the live activations, contiguous and in call order. -/
 theorem C19_frames_tile (p : Program) (h : NonNegPrepare p.code) (vm : VM) (hr : Reach p vm) :
-    Tiles vm.stack vm.data.length := by
-  sorry
+    Tiles vm.stack vm.data.length :=
+  reach_tiles h vm hr
 
 /-- Memory use is the sum of the live frames: bounded by the call chain, not by the
     number of calls executed. -/
 theorem C19_memory_is_live_frames (p : Program) (h : NonNegPrepare p.code) (vm : VM) (hr : Reach p vm) :
-    vm.data.length = (vm.stack.map (fun a => a.segSize.toNat)).sum := by
-  sorry
+    vm.data.length = (vm.stack.map (fun a => a.segSize.toNat)).sum :=
+  tiles_sum _ _ (reach_tiles h vm hr)
 
 /-- non-vacuity: a machine two calls deep satisfies the tiling predicate -/
 example : Tiles [⟨3, 2, 0, 7, 0⟩, ⟨0, 3, 0, -1, 1⟩] 5 := by
